@@ -288,6 +288,10 @@ int world_new_sessions(world_t *w)
     {
         co.extendedMasterSecret = -1;
     }
+    if (c->ec384)
+    {
+        co.ecFlags = IS_SECP384R1;
+    }
     if (c->hrr)
     {
         uint16_t cg[2] = { namedgroup_secp256r1, namedgroup_secp384r1 }, sg[1] = { namedgroup_secp384r1 };
